@@ -450,7 +450,9 @@ fn if_expression<'t>(ctx: Context<'t>) -> ParseResult<'t, Expression> {
 
 fn arrow_call<'t>(ctx: Context<'t>, lhs: &Expression) -> ParseResult<'t, Expression> {
     let ctx = expect!(ctx, T::Arrow, "Expected '->' in arrow function call");
-    let (ctx, rhs) = expression(ctx)?;
+    // `->` binds tighter than the binary operators: `a -> f(b) + 1` is `f(a, b) + 1`.
+    // Calls, indexing and further arrows still belong to the right hand side.
+    let (ctx, rhs) = parse_precedence(ctx, Prec::Index)?;
 
     use AssignableKind::{ArrowCall, Call};
     use ExpressionKind::*;
@@ -466,6 +468,9 @@ fn arrow_call<'t>(ctx: Context<'t>, lhs: &Expression) -> ParseResult<'t, Express
                 kind: ArrowCall(Box::new(lhs), callee, args),
                 span: rhs.span,
             }),
+
+            // Redundant parentheses around the call don't change anything.
+            Parenthesis(inner) => return prepend_expresion(ctx, lhs, *inner),
 
             Get(Assignable { kind: ArrowCall(pre, callee, args), .. }) => {
                 let (_, pre) = prepend_expresion(ctx, lhs, *pre)?;
